@@ -16,10 +16,28 @@ def assignments(domain):
     yield dict(zip(fields, vals))
 
 
+# the DOCUMENTED field order of the hyper-parameter classes (client_datasets.py docstrings), which is also the order of
+# positional constructor arguments: HParams(4, 2, None, True) means batch_size=4, num_epochs=2, num_steps=None, drop_remainder=True
+FIELD_ORDER = {
+    'ShuffleRepeatBatchHParams': ['batch_size', 'num_epochs', 'num_steps', 'drop_remainder', 'seed', 'skip_shuffle'],
+    'BatchHParams': ['batch_size', 'drop_remainder'],
+    'PaddedBatchHParams': ['batch_size', 'num_batch_size_buckets'],
+}
+
+
+class PosArgs(dict):
+  """A base assignment whose first `npos` fields (documented order) are passed positionally to the constructor."""
+  npos = 0
+
+
 def routes(effective, domain, max_diff=None):
   """Yields (label, base assignment or None, override kwargs) for one effective assignment."""
   yield 'kwargs', None, dict(effective)
   yield 'object', dict(effective), {}
+  for k in range(2, len(effective) + 1):
+    b = PosArgs(effective)
+    b.npos = k
+    yield 'positional%d' % k, b, {}
   yield 'object_redundant', dict(effective), dict(effective)
   fields = sorted(domain)
   for base in assignments(domain):
@@ -34,4 +52,10 @@ def invoke(fn, hparams_cls, base, overrides, *args):
   """Calls fn(*args, hparams?, **overrides) along one route."""
   if base is None:
     return fn(*args, **overrides)
+  if isinstance(base, PosArgs):
+    order = FIELD_ORDER[hparams_cls.__name__]
+    pos = [f for f in order if f in base][:base.npos]
+    assert pos == order[:len(pos)], 'positional route needs a prefix of the documented field order'
+    obj = hparams_cls(*[base[f] for f in pos], **{f: v for f, v in base.items() if f not in pos})
+    return fn(*args, obj, **overrides)
   return fn(*args, hparams_cls(**base), **overrides)
